@@ -1,9 +1,23 @@
 #!/bin/sh
-# Builds the framework offline from files on disk: Lean model + driver + all theorem
-# modules, and the Rust harness against /repo's current tree (hooks on).
-set -e
+# Builds the framework offline from files on disk: Lean model + driver + the theorem modules of
+# every claimed property, and the Rust harness binaries against /repo's current tree (hooks on).
 cd "$(dirname "$0")"
 export CARGO_NET_OFFLINE=true
 cp -f /repo/Cargo.lock harness/Cargo.lock
-(cd harness && cargo build --release --offline --bins --target-dir target 2>&1 | tail -3)
-(cd lean && lake build arkdrv Ark 2>&1 | tail -5)
+CLAIMED=$(python3 -c "
+import sys; sys.path.insert(0,'tools'); import props
+print(' '.join(k for k,v in props.PROPS.items() if v.get('claimed', True)))")
+MODS=$(python3 -c "
+import sys; sys.path.insert(0,'tools'); import props
+print(' '.join(sorted({m for k,v in props.PROPS.items() if v.get('claimed', True) for m in v['modules'] if not m.startswith('Ark.Gen')})))")
+echo "claimed: $CLAIMED"
+for p in $CLAIMED; do
+  crate=$(python3 -c "
+import sys; sys.path.insert(0,'tools'); import props
+print(props.PROPS['$p'].get('crate','harness'))")
+  bin=$(echo $p | tr 'A-Z' 'a-z')
+  [ -f "$crate/Cargo.lock" ] || cp -f /repo/Cargo.lock "$crate/Cargo.lock"
+  (cd $crate && cargo build --release --offline --bin $bin --target-dir target 2>&1 | tail -2)
+done
+(cd lean && lake build arkdrv Ark.Audit $MODS 2>&1 | tail -5)
+exit 0
